@@ -35,6 +35,7 @@ fn main() {
     let thorough = args[2] == "thorough";
     let seed: u64 = args[3].parse().expect("seed");
     common::install_panic_hook();
+    common::start_watchdog();
     let mut ctx = Ctx::new(seed, thorough);
     // in replay mode each finished line is written at once, so that after an abort the file tells
     // which case was running
